@@ -8,7 +8,9 @@ MODNAME = "c11"
 CASES_PER_SHARD = 40
 CASE_TIMEOUT = 120
 DIRS = ["up", "down", "left", "right"]
-RULE = ("dataset shapes of the property (single datum, equal times, unsorted, spans from 1 ms to centuries incl. month ends, "
+RULE = ("[tick texts: time domains whose default ticks fall in each of the seven branches of mytimeformat (years, months, "
+        "Sundays, midnights, whole hours, minutes, seconds; evidence key tick_text_branches counts them)] "
+        "dataset shapes of the property (single datum, equal times, unsorted, spans from 1 ms to centuries incl. month ends, "
         "leap days, year ends, the latest datum on a 29th-31st with month / quarter / year ticks; numeric data with a LinearScale; date / datetime / time values) x options in {omitted, empty, "
         "partial} x direction x layering algorithm x bounds x tick display; thorough adds 200..1000-label datasets with conflict "
         "clusters <= 200. Both back-ends are exported. Non-trivial = more than one datum or a degenerate domain; distinct by input.")
@@ -45,11 +47,15 @@ def impl(py):
             out["dots"] = [d.hex() for d in dots]
             out["nticks"] = sum(1 for g in root.iter("g") if g.get("class") == "tick")
             tk = []
+            texts = []
             for g in root.iter("g"):
                 if g.get("class") == "tick":
                     m = re.match(r"translate\(([^,]+),\s*([^)]+)\)", g.get("transform"))
                     tk.append([float(m.group(1)).hex(), float(m.group(2)).hex()])
+                    tx = g.find("text")
+                    texts.append(tx.text if tx is not None and tx.text is not None else "")
             out["ticks"] = tk
+            out["tick_texts"] = texts
             out["dir"] = tl.direction
             out["nboxes"] = sum(1 for g in root.iter("g") if g.get("class") == "label-g")
             out["order"] = [n.data.data.get("_id") for n in tl.nodes]
@@ -253,6 +259,39 @@ def make(rng, n=None, shape=None, kind=None):
     return with_model({"kind": "%s/%s" % (kind, shape), "py": py})
 
 
+BRANCH_SPANS = [  # seconds: spans whose default ticks fall in each branch of mytimeformat
+    (6 * 365 * 86400, 40 * 365 * 86400),     # yearly ticks            -> "%Y"
+    (160 * 86400, 1500 * 86400),             # monthly / quarterly     -> "%B" (and "%Y")
+    (60 * 86400, 140 * 86400),               # weekly (Sundays)        -> "%b %d"
+    (4 * 86400, 28 * 86400),                 # daily / two-daily       -> "%a %d" (and Sundays, firsts)
+    (5 * 3600, 3 * 86400),                   # hourly .. 12-hourly     -> "%I %p"
+    (5 * 60, 3 * 3600),                      # minutes                 -> "%H:%M"
+    (4, 4 * 60),                             # seconds                 -> ":%S"
+]
+
+
+def make_branch(rng, b):
+    """a time domain whose ticks exercise branch b of mytimeformat (and the coarser ones on the way)"""
+    lo, hi = BRANCH_SPANS[b]
+    span = rng.randrange(lo, hi + 1)
+    y = rng.randrange(1900, 2150)
+    base = datetime.datetime(y, rng.randrange(1, 13), rng.randrange(1, 29), rng.randrange(24), rng.randrange(60),
+                             rng.randrange(60), rng.randrange(1000) * 1000)
+    if rng.random() < 0.4:   # start just before a year / month / day / hour boundary so that coarser texts appear too
+        base = rng.choice([datetime.datetime(y, 12, 31, 23, 59, 30), datetime.datetime(y, rng.randrange(1, 13), 28, 22),
+                           datetime.datetime(y, rng.randrange(1, 13), rng.randrange(1, 29), 23, 58),
+                           datetime.datetime(y, rng.randrange(1, 13), rng.randrange(1, 29), 11, 30)])
+    n = rng.choice([2, 3, 6])
+    ts = [base, base + datetime.timedelta(seconds=span)] + \
+         [base + datetime.timedelta(seconds=rng.randrange(0, span + 1)) for _ in range(n - 2)]
+    data = [{"time": _iso(t), "width": rng.choice([10, 25, 50]), "_id": i} for i, t in enumerate(ts)]
+    rng.shuffle(data)
+    for i, d in enumerate(data):
+        d["_id"] = i
+    o = {"direction": rng.choice(DIRS), "showTicks": True}
+    return with_model({"kind": "tickbranch/%d" % b, "py": {"data": data, "opts": o, "scale": "time"}})
+
+
 def make_big(rng, gsize=None, groups=None):
     """up to 1000 labels in well separated groups: a conflict cluster (the items
     one solver block can absorb) cannot span two groups, so it has at most
@@ -324,6 +363,8 @@ def gen(rng, tier):
                 yield make(rng, shape=shape, kind=kind)
     for _ in range(60 if tier == "quick" else 600):
         yield make(rng, shape="max_month_end", kind="time")
+    for k in range(84 if tier == "quick" else 700):
+        yield make_branch(rng, k % 7)
     for _ in range(2 if tier == "quick" else 12):
         yield make_big(rng)
 
@@ -380,7 +421,14 @@ def _decode(m):
     length = Fraction(m[k], m[k + 1])
     dots, k = qlist(k + 2)
     ticks, k = qlist(k)
-    return d0, d1, length, dots, ticks
+    texts = []
+    n = m[k]
+    k += 1
+    for _ in range(n):
+        ln = m[k]
+        texts.append("".join(chr(c) for c in m[k + 1:k + 1 + ln]))
+        k += 1 + ln
+    return d0, d1, length, dots, ticks, texts
 
 
 def _close(x, want, length, cond=0.0):
@@ -414,7 +462,7 @@ def prepare_compare(cases, impl_out, model_out, workdir):
                 extra.append((i, "today", [model_call(c["py"], list(io["today"]))]))
                 continue
         if c["py"]["scale"] == "linear" and mo and mo[0] and mo[0][0] == 1:
-            d0, d1, _, _, _ = _decode(mo[0])
+            d0, d1 = _decode(mo[0])[:2]
             extra.append((i, "alts", [[232] + [d0.numerator, d0.denominator, d1.numerator, d1.denominator, 10]]))
     if not extra:
         return
@@ -459,7 +507,7 @@ def compare(case, io, mo):
     if m[0] != 1:
         return "the model %s, the implementation returns a value" % (
             "raises (kind %d)" % m[1] if m[0] == 0 else "runs out of fuel")
-    d0, d1, length, dots, ticks = _decode(m)
+    d0, d1, length, dots, ticks, texts = _decode(m)
     linear = py["scale"] == "linear"
     explicit = bool((py["opts"] or {}).get("domain"))
     ambiguous = False
@@ -506,6 +554,17 @@ def compare(case, io, mo):
         elif c16.ambiguous({"dom": [d0, d1], "m": 10}):
             raise core.Ambiguous()
         return "tick positions %r, the model has %r" % (tk[:6], [float(t) for t in ticks[:6]])
+    # tick texts, exactly
+    got_tx = list(io.get("tick_texts", []))
+    if got_tx != texts:
+        j = next((j for j, (x, w) in enumerate(zip(got_tx, texts)) if x != w), min(len(got_tx), len(texts)))
+        x = got_tx[j] if j < len(got_tx) else None
+        w = texts[j] if j < len(texts) else None
+        # the only band: a tiny negative non-zero double where the exact tick is 0 prints "-0[.0..]"
+        if linear and x is not None and w is not None and x == "-" + w and float(w) == 0.0 and \
+                got_tx[:j] + got_tx[j + 1:] == texts[:j] + texts[j + 1:]:
+            raise core.Ambiguous()
+        return "tick %d has text %r, the model has %r" % (j, x, w)
     return None
 
 
@@ -561,7 +620,7 @@ EXPLANATION = ("C11_total (never raises, never out of fuel on the documented dom
                "extent + nice(), range, timePos, ticks) over the verified scale models; the tie compares, per export, "
                "success-vs-exception, the reported domain (time: exact microseconds; linear: 1e-9 relative, with the nice() band "
                "alternatives of Scale/Band.v counted as ambiguous), the range, every dot position and every tick position "
-               "(1e-9 relative + 1e-9 x axis length) with the model, and runs BOTH back-ends through the real layout engine and "
+               "(1e-9 relative + 1e-9 x axis length) and every tick TEXT (exactly; parsed from the SVG) with the model, and runs BOTH back-ends through the real layout engine and "
                "emitters, whose failures (any exception) the oracle reports.")
 LEVEL_TEXT = ("Machine-checked Coq theorems on a Gallina model of the axis pipeline of labella/timeline.py in an error monad (an "
               "explicit failure at every raising Python operation on the path): for every non-empty dataset of numbers with a "
@@ -574,7 +633,8 @@ LEVEL_TEXT = ("Machine-checked Coq theorems on a Gallina model of the axis pipel
 LEVEL_NOTE = ("NOT in the Coq model, covered by the tie only: the layout engine's recursion depth (CPython frames; conflict "
               "clusters above 200 items raise RecursionError: the open known finding the property itself records, "
               "corpus/C11/recursion_260.json), the dict-key handling of omitted / empty / partial options, the emitters' string "
-              "formatting and tick texts. Trusted: Coq kernel; extraction re-checked on a slice by vm_compute; the correspondence "
+              "formatting (tick texts ARE modelled: Time/TickFormat.v, compared exactly; a \"-0.0\" printed for a tiny negative double "
+              "where the exact tick is 0 is counted as ambiguous). Trusted: Coq kernel; extraction re-checked on a slice by vm_compute; the correspondence "
               "harness. Modelled, not verified: labella/*.py; doubles as exact rationals (ambiguity bands of nice()/ticks() "
               "counted, not compared). Bare datetime.time data are completed with the implementation's own date.today(), which "
               "is passed to the model.")
@@ -582,3 +642,36 @@ TECHNIQUE = ("Coq proof (error-monad pipeline over the verified linear/time scal
              "a reach bound) + model/implementation correspondence on both back-ends + exception oracle")
 ASSUMPTIONS = ["conflict clusters of at most 200 items (larger ones: open known finding, recursion limit)",
                "instants of millisecond resolution in years 1900-2200 (DESIGN.md Appendix B)"]
+
+
+def _text_branch(t):
+    if re.fullmatch(r"\d{4}", t):
+        return "%Y"
+    if re.fullmatch(r"[A-Z][a-z]+", t):
+        return "%B"
+    if re.fullmatch(r"(Jan|Feb|Mar|Apr|May|Jun|Jul|Aug|Sep|Oct|Nov|Dec) \d\d", t):
+        return "%b %d"
+    if re.fullmatch(r"(Mon|Tue|Wed|Thu|Fri|Sat|Sun) \d\d", t):
+        return "%a %d"
+    if re.fullmatch(r"\d\d (AM|PM)", t):
+        return "%I %p"
+    if re.fullmatch(r"\d\d:\d\d", t):
+        return "%H:%M"
+    if re.fullmatch(r":\d\d", t):
+        return ":%S"
+    return "linear/other"
+
+
+def extra_evidence(cases, impl_out, model_out):
+    cnt = {}
+    n = 0
+    for c, io in zip(cases, impl_out):
+        if isinstance(io, dict) and "tick_texts" in io:
+            for t in io["tick_texts"]:
+                n += 1
+                if c["py"]["scale"] != "linear":
+                    b = _text_branch(t)
+                    cnt[b] = cnt.get(b, 0) + 1
+                else:
+                    cnt["linear"] = cnt.get("linear", 0) + 1
+    return {"tick_texts_compared": n, "tick_text_branches": cnt}
